@@ -5,7 +5,8 @@ from .c04 import SyncProp
 class C05(SyncProp):
     id = "C05"
     kinds = ("sem",)
-    sizes = {"quick": 2500, "thorough": 60000}
+    sizes = {"quick": 1500, "thorough": 60000}
+    ready = True
     nontrivial_labels = ("sem-timeout-with-others-queued", "sem-release-hits-queue", "release-at-deadline")
     technique = ("property-based testing (Hypothesis): generated acquire/acquire_timeout/release programs run on the real kernel, "
                  "their kernel-ordered log replayed through a sequential semaphore specification (model-based oracle, exact dates)")
